@@ -44,6 +44,15 @@ def gen_expr(rng, fields, boolean=False, depth=2, vector=False):
     return [rng.pick(ARITH), gen_expr(rng, fields, False, depth - 1, vector), gen_expr(rng, fields, False, depth - 1, vector)]
 
 
+def expr_rename(a, ren):
+    if a[0] == "var":
+        return ["var", ren.get(a[1], a[1])]
+    return [a[0]] + [expr_rename(x, ren) if isinstance(x, list) else x for x in a[1:]]
+
+
+AWKWARD_FIELDS = ["e", "pi", "tau", "gamma", "inf", "nan", "exp", "log", "pow", "np", "math", "numpy", "copy", "pickle", "types", "histogrammar", "named", "datum"]
+
+
 def expr_vars(a):
     if a[0] == "var":
         return {a[1]}
@@ -183,11 +192,11 @@ class C17(Scenario):
             "bare scalars in seeded order. Non-trivial: >= 4 calls of which >= 1 repeats the previous argument and >= 1 "
             "changes it (memo), or >= 2 record representations (string). Distinct: hash of the case.")
     assumptions = ["the twin (plain function) defines what the wrapped function must return",
-                   "expressions use + - * /const comparisons and/or/not over fields whose names do not collide with math.*",
+                   "expressions use + - * /const comparisons and/or/not over record fields (also fields named like math.* / numpy / module globals)",
                    "bare scalars are only used with single-variable expressions"]
     expected_faults = ["memo_interleave"]
     expected_probes = ["memo_repeat_identical", "memo_repeat_equal_copy", "memo_change", "memo_array_batch", "memo_equal_value_other_type", "memo_function_fault", "string_first_scalar",
-                       "string_first_object", "string_first_dict", "wrapper_orders", "wrapper_travelled", "memo_mutated_in_place", "memo_batch_mutated_in_place", "memo_signed_zero"]
+                       "string_first_object", "string_first_dict", "wrapper_orders", "wrapper_travelled", "memo_mutated_in_place", "memo_batch_mutated_in_place", "memo_signed_zero", "string_field_named_like_builtin"]
 
     # ------------------------------------------------------------------ generation
     def generate(self, rng, tier, profile):
@@ -273,7 +282,19 @@ class C17(Scenario):
             steps.append({"op": "fill", "rec": s.randrange(len(recs)), "form": s.pick(forms), "w": s.pick([1.0, 0.5, 2.0])})
         if s.chance(0.3) and all(op not in repr(sp) for op in ("'and'", "'or'", "'not'")):
             steps.append({"op": "fillnumpy", "rows": [s.randrange(len(recs)) for _ in range(4)], "box": s.pick(["dict", "frame", "rec"])})
-        return {"kind": "string-twin", "spec": sp, "var": sorted(allv)[0], "records": [specmod.enc_record(r) for r in recs], "steps": steps}
+        rename = None
+        # (not with bare scalars: there the one name the expression does not know *is* the datum, so a name math.* also
+        # has cannot stand for it)
+        if not any(st_.get("form") == "scalar" for st_ in steps) and t.chance(0.35):
+            # field names that are also names of math.* / numpy / of the module that evaluates the expression: the record wins
+            names = t.sample(AWKWARD_FIELDS, 2)
+            rename = {"x": names[0], "y": names[1]}
+            for _, nd in specmod.walk(sp):
+                if "q" in nd and nd["q"].get("kind") == "expr":
+                    nd["q"]["ast"] = expr_rename(nd["q"]["ast"], rename)
+            allv = set(rename.get(v, v) for v in allv)
+        return {"kind": "string-twin", "spec": sp, "var": sorted(allv)[0], "records": [specmod.enc_record(r) for r in recs], "steps": steps,
+                "rename": rename}
 
     # ------------------------------------------------------------------ execution
     def run(self, case, w, R):
@@ -515,11 +536,14 @@ class C17(Scenario):
         w.put(1, ta)
         forms = set()
         calls = 0
+        ren = case.get("rename") or {}
+        if ren:
+            w.bump("probe_string_field_named_like_builtin")
         for si, st in enumerate(case["steps"]):
             if st["op"] == "fill":
                 if st["rec"] >= len(w.records):
                     continue
-                rec = {k: v for k, v in w.records[st["rec"]].items() if k in ("x", "y")}
+                rec = {ren.get(k, k): v for k, v in w.records[st["rec"]].items() if k in ("x", "y")}
                 form = st["form"]
                 d1, d2 = as_datum(rec, form, case["var"]), as_datum(rec, form, case["var"])
                 if calls == 0:
@@ -529,8 +553,8 @@ class C17(Scenario):
             else:
                 if any(r >= len(w.records) for r in st["rows"]):
                     continue
-                o1 = call(ta.fill.numpy, make_box(w.records, st["rows"], st["box"]))
-                o2 = call(tb.fill.numpy, make_box(w.records, st["rows"], st["box"]))
+                o1 = call(ta.fill.numpy, make_box(w.records, st["rows"], st["box"], ren))
+                o2 = call(tb.fill.numpy, make_box(w.records, st["rows"], st["box"], ren))
             calls += 1
             if o1.ok != o2.ok:
                 raise self.violation("UserFcn", st["op"], "exception:%s" % type((o1 if not o1.ok else o2).exc).__name__,
